@@ -156,6 +156,16 @@ func cmdCheck(args []string) int {
 		cfg.quickS, cfg.timeoutS = 10, 120
 		cfg.crossCheck = true
 	}
+	// obligations known to discharge quickly on the unchanged tree get a last,
+	// unhurried attempt before a timeout is reported as a violation
+	cfg.mustDecide = map[string]bool{}
+	if data, err := os.ReadFile(filepath.Join(*verif, "baseline", *prop+".obligations")); err == nil {
+		for _, ln := range strings.Split(string(data), "\n") {
+			if f := strings.Fields(ln); len(f) == 1 && !strings.HasPrefix(ln, "#") {
+				cfg.mustDecide[f[0]] = true
+			}
+		}
+	}
 	ts := time.Now()
 	solveAll(cfg, frs)
 	solveS := time.Since(ts).Seconds()
